@@ -384,7 +384,9 @@ def rule_fwd(ctx, M):
         ctx.check(ok and bool(fw), "C01.FWD", b.def_, "bit was clear => parent waker of the same readiness is woken before return",
                   site=a.where, path=common.fmt_blocks(bi, bad), sample={"forward_sites": [s.where for s in fw]})
         # calls made while the guard is live must not run foreign code other than the forward itself
+        guard_drop = lambda s: s.callee.key == ("core::mem::drop", "drop") and s.args and s.arg(0) == a.arg(0)
         foreign = [s for s in bi.sites if s.callee.key not in (("Mutex", "lock"), ("Result", "unwrap"), ("Option", "expect"), ("Option", "unwrap"))
+                   and not guard_drop(s)
                    and s.callee.owner not in scan.READY and s.callee.owner not in ("MutexGuard", "Waker", "Arc")
                    and s.callee.name not in ("deref", "deref_mut")]
         ctx.check(not foreign, "C01.FWD", b.def_, "no foreign call while the readiness guard is held in wake",
